@@ -424,7 +424,10 @@ def judge_flow(ctx, spec, obs, crt_path, key_path, pre_key, helper):
         ctx.violation("attempt reported successful but there is no private-key file", replay_obj)
         return
     pk = helper.call({"op": "pub_of_key", "pem": kf["data"].decode(errors="replace")})
-    if "pub_der_hex" not in csr or pk.get("pub_der_hex") != csr.get("pub_der_hex"):
+    text = kf["data"].decode(errors="replace")
+    kv = vlib.model([{"op": "c02_key", "key_file_pub_hex": pk.get("pub_der_hex"), "csr_pub_hex": csr.get("pub_der_hex"),
+                      "key_text": text}])[0]
+    if not kv.get("key_is_csr_key"):      # Spec.C02.keyIsCsrKey
         ctx.violation("attempt reported successful but the private-key file is not the key of the order's CSR "
                       "(file: %s, CSR: %s)" % (str(pk)[:80], str(csr.get("pub_der_hex"))[:40]), replay_obj)
     if not sk or sk["sha256"] != kf["sha256"]:
@@ -436,7 +439,7 @@ def judge_flow(ctx, spec, obs, crt_path, key_path, pre_key, helper):
     key_written = any(flow.hook_args(r).get("file_path") == key_path for r in obs["hooks"]
                       if flow.hook_args(r).get("type", "").startswith("file-post-"))
     ctx.count("flow:key-file-%s" % ("written" if key_written else "kept"))
-    if key_written and ("residue-marker" in text or not text.rstrip("\n").endswith("-----END PRIVATE KEY-----") or text.count("-----BEGIN") != 1):
+    if key_written and not kv.get("key_file_exact"):      # Spec.C02.keyFileExact on Pem.pemSplit of the file
         ctx.violation("the private-key file holds more than the new key (%d bytes, residue of the previous file)" % kf["len"],
                       replay_obj)
     if spec["renew_over_longer"]:
